@@ -394,6 +394,23 @@ def _reassign_vd_dirrecord_extents(vd, current_extent):
     return current_extent, file_list
 
 
+def _check_paths_not_empty(*paths):
+    # type: (Optional[str]) -> None
+    """
+    A function to refuse paths that were passed as an empty string; such a
+    path names nothing, and the checks further down treat it sometimes as a
+    path and sometimes as no path at all.
+
+    Parameters:
+     paths - The paths (or None) to check.
+    Returns:
+     Nothing.
+    """
+    for path in paths:
+        if path is not None and not path:
+            raise pycdlibexception.PyCdlibInvalidInput('A path must not be empty')
+
+
 def _check_path_depth(iso_path):
     # type: (bytes) -> None
     """
@@ -4644,6 +4661,8 @@ class PyCdlib:
         if not self._initialized:
             raise pycdlibexception.PyCdlibInvalidInput('This object is not initialized; call either open() or new() to create an ISO')
 
+        _check_paths_not_empty(iso_path, joliet_path, udf_path)
+
         if not utils.file_object_supports_binary(fp):
             raise pycdlibexception.PyCdlibInvalidInput('The fp argument must be in binary mode')
 
@@ -4675,6 +4694,8 @@ class PyCdlib:
         """
         if not self._initialized:
             raise pycdlibexception.PyCdlibInvalidInput('This object is not initialized; call either open() or new() to create an ISO')
+
+        _check_paths_not_empty(iso_path, joliet_path, udf_path)
 
         num_bytes_to_add = self._add_fp(filename, os.stat(filename).st_size,
                                         True, iso_path, rr_name, joliet_path,
@@ -5002,6 +5023,8 @@ class PyCdlib:
         """
         if not self._initialized:
             raise pycdlibexception.PyCdlibInvalidInput('This object is not initialized; call either open() or new() to create an ISO')
+
+        _check_paths_not_empty(iso_path, joliet_path, udf_path)
 
         if iso_path is None and joliet_path is None and udf_path is None:
             raise pycdlibexception.PyCdlibInvalidInput('Either iso_path or joliet_path must be passed')
@@ -5411,6 +5434,8 @@ class PyCdlib:
         if not self._initialized:
             raise pycdlibexception.PyCdlibInvalidInput('This object is not initialized; call either open() or new() to create an ISO')
 
+        _check_paths_not_empty(bootcatfile, joliet_bootcatfile, udf_bootcatfile)
+
         # In order to add an El Torito boot, we need to do the following:
         # 1.  Find the boot file record (which must already exist).
         # 2.  Construct a BootRecord.
@@ -5614,6 +5639,8 @@ class PyCdlib:
         """
         if not self._initialized:
             raise pycdlibexception.PyCdlibInvalidInput('This object is not initialized; call either open() or new() to create an ISO')
+
+        _check_paths_not_empty(symlink_path, joliet_path, udf_symlink_path)
 
         # There are actually quite a few combinations and rules to think about
         # here.  Rules:
